@@ -368,6 +368,21 @@ def gen_c09(rnd, n, thorough=False):
             gl.append("clidiff src=g:y/*.wsp dest=h: from=0 until=0 archive=-1 live=%s/y/b.wsp hold=h/y/a.wsp" % side)
             gl.append("clidiff src=g:y/*.wsp dest=h: from=0 until=0 archive=-1")
             cases.append({'id': 'c09-%d-live' % c, 'lines': gl, 'tags': {'layout': 'live', 'pair': 'glob_live', 'window': 'default'}})
+    # a glob whose name list is longer than 64 KiB (a thousand files with long names), the only pair that does not
+    # compare sorting last: through a directory and through a server every matched pair is compared
+    cnt = rnd.randint(1005, 1030)
+    sub = 'metrics_%s' % ('m' * 64)
+    gl = []
+    for i in range(cnt):
+        for b in ('g', 'h'):
+            if b == 'h' and i == cnt - 1:
+                continue
+            nm = '%s/%s/f%04d.wsp' % (b, sub, i)
+            gl += ["create %s 1 1 2 m 2 x 00000000" % nm, "sync %s" % nm, "drop %s" % nm]
+    gl += ["clidiff src=g:%s/*.wsp dest=h: from=0 until=0 archive=-1 remote=0" % sub, "clidiff src=g:%s/*.wsp dest=h: from=0 until=0 archive=-1 remote=1 deep=1" % sub,
+           "create h/%s/f%04d.wsp 1 1 2 m 2 x 00000000" % (sub, cnt - 1), "sync h/%s/f%04d.wsp" % (sub, cnt - 1), "drop h/%s/f%04d.wsp" % (sub, cnt - 1),
+           "clidiff src=g:%s/*.wsp dest=h: from=0 until=0 archive=-1 remote=1 deep=1" % sub]
+    cases.append({'id': 'c09-manynames', 'lines': gl, 'tags': {'layout': 'names%d' % cnt, 'pair': 'glob_long_list', 'window': 'default'}})
     return cases
 
 
@@ -409,6 +424,11 @@ def gen_c10(rnd, n, thorough=False):
             # the first file in glob order was never written: its all-NaN series is where the sum starts
             d = 's/%s' % items[0].replace('.', '/')
             lines += ["create %s/a0.wsp %s m %d x %08x" % (d, fmt_layout(layout), m, xff), "sync %s/a0.wsp" % d, "drop %s/a0.wsp" % d]
+        linked = kind in ('plain', 'holes', 'all_nan_column') and rnd.chance(0.4)
+        if linked:
+            # one matched name is a symbolic link to a whisper file elsewhere: it is a file of the item like any other
+            lines += fill_ops(rnd, 'other/t.wsp', layout, m, xff, density=0.6, inconsistent=False)
+            lines.append("symlink other/t.wsp s/%s/fl.wsp" % items[0].replace('.', '/'))
         if kind == 'one_unreadable':
             lines += ["create s/%s/f9.wsp %s m %d x %08x" % (items[0].replace('.', '/'), fmt_layout(layout), m, xff), "drop s/%s/f9.wsp" % items[0].replace('.', '/')]
         wk, frm, until = window(rnd, layout)
@@ -431,7 +451,7 @@ def gen_c10(rnd, n, thorough=False):
             # the same sum again (a sum leaves nothing behind), and the never-written file read alone
             lines.append(lines[-1])
             lines.append("cliview src=s:%s/a0.wsp from=%s until=%s archive=%d header=0" % (items[0].replace('.', '/'), frm, until, arch))
-        cases.append({'id': 'c10-%d' % c, 'lines': lines, 'tags': {'layout': lname, 'kind': kind, 'files': nfiles, 'window': wk, 'remote': int('remote' in hold)}})
+        cases.append({'id': 'c10-%d' % c, 'lines': lines, 'tags': {'layout': lname, 'kind': kind, 'files': nfiles, 'window': wk, 'remote': int('remote' in hold), 'linked_file': int(linked)}})
         if c == 1:
             cases.append(many_files_case(rnd, 'c10-%d-many' % c, ['sum']))
         if c == 4:
